@@ -160,6 +160,10 @@ func c18Mirror(c *Ctx, p *core.Prog) {
 								}
 							}
 						}
+						// … or a line table that has been kept in step with the content in local variables
+						if c18Coupled(x.Val, st.Val, map[[2]ssa.Value]bool{}) {
+							ok2 = true
+						}
 					}
 					if ok2 {
 						r.OK("mirror-coupling", key, p.Pos(x.Pos()), "Lines re-split from the new content in the same block")
@@ -185,7 +189,7 @@ func c18Mirror(c *Ctx, p *core.Prog) {
 						return fa.X
 					}
 					dc, dl := fresh(x.Call.Args[0], "Content"), fresh(x.Call.Args[1], "Lines")
-					if dc != nil && dl != nil && dc == dl {
+					if (dc != nil && dl != nil && dc == dl) || c18Coupled(x.Call.Args[0], x.Call.Args[1], map[[2]ssa.Value]bool{}) {
 						r.OK("mirror-coupling", key, p.Pos(x.Pos()), "content and lines loaded from the same document at the call")
 					} else {
 						r.Violate("mirror-coupling", key, p.Pos(x.Pos()), "applyChange is not given the document's current Content and Lines (both loaded at the call): an edit is positioned with a line table that does not belong to the text it is applied to")
@@ -873,4 +877,57 @@ func c18LinesPartition(c *Ctx, p *core.Prog) {
 	} else {
 		r.Violate("lines-partition", "splitLines", p.FnPos(fn), strings.Join(probs, "; ")+": the lines no longer add up to the content, so the byte offset of every position after the first affected line is wrong and an incremental edit lands in the wrong place")
 	}
+}
+
+// c18Coupled: l is the line table of content c — both loaded from the same document in one block, l = splitLines(c), or
+// merges (phis of one block) whose inputs are coupled edge by edge (a working copy carried through a loop).
+func c18Coupled(c, l ssa.Value, busy map[[2]ssa.Value]bool) bool {
+	k := [2]ssa.Value{c, l}
+	if busy[k] {
+		return true // loop-carried pair: assumed while its other inputs are checked
+	}
+	busy[k] = true
+	if call, ok := l.(*ssa.Call); ok && call.Call.StaticCallee() != nil && call.Call.StaticCallee().Name() == "splitLines" && len(call.Call.Args) == 1 {
+		return call.Call.Args[0] == c || sameFieldLoad(call.Call.Args[0], c)
+	}
+	uc, ok1 := c.(*ssa.UnOp)
+	ul, ok2 := l.(*ssa.UnOp)
+	if ok1 && ok2 && uc.Op == token.MUL && ul.Op == token.MUL {
+		fc, okc := uc.X.(*ssa.FieldAddr)
+		fl, okl := ul.X.(*ssa.FieldAddr)
+		if okc && okl && fc.X == fl.X && core.FieldName(fc.X.Type(), fc.Field) == "Content" && core.FieldName(fl.X.Type(), fl.Field) == "Lines" && uc.Block() == ul.Block() {
+			// no store to either field between the two loads
+			lo, hi := -1, -1
+			for i, in := range uc.Block().Instrs {
+				if in == ssa.Instruction(uc) || in == ssa.Instruction(ul) {
+					if lo < 0 {
+						lo = i
+					}
+					hi = i
+				}
+			}
+			for _, in := range uc.Block().Instrs[lo:hi] {
+				if st, ok := in.(*ssa.Store); ok {
+					if fa, ok := st.Addr.(*ssa.FieldAddr); ok && fa.X == fc.X {
+						return false
+					}
+				}
+				if _, isCall := in.(ssa.CallInstruction); isCall {
+					return false
+				}
+			}
+			return true
+		}
+	}
+	pc, ok1 := c.(*ssa.Phi)
+	pl, ok2 := l.(*ssa.Phi)
+	if ok1 && ok2 && pc.Block() == pl.Block() {
+		for i := range pc.Edges {
+			if !c18Coupled(pc.Edges[i], pl.Edges[i], busy) {
+				return false
+			}
+		}
+		return true
+	}
+	return false
 }
